@@ -90,7 +90,7 @@ pub struct Scope {
 #[derive(Clone, Debug)]
 pub enum LH {
     Guard { real: bool },
-    LSpan { node: Option<u32> },
+    LSpan { node: Option<u32>, dead: bool },
     Coll { real: bool },
 }
 
@@ -501,7 +501,7 @@ impl Model {
             None => return err("nothing to pop"),
         };
         match h {
-            LH::LSpan { node } => {
+            LH::LSpan { node, .. } => {
                 if let Some(n) = node {
                     if let Some(sc) = self.top_scope(t) {
                         if sc.open.last() == Some(&n) {
@@ -976,15 +976,15 @@ impl Model {
                     self.nodes.insert(op, (span_name(str_seed, op), true, t));
                 }
                 self.closure_expect(op, *props, node.is_some(), true);
-                self.threads[t as usize].stack.push(LH::LSpan { node });
+                self.threads[t as usize].stack.push(LH::LSpan { node, dead: false });
                 if node.is_some() && *props > 0 {
                     self.run_inner(idx, t, inner)?;
                 }
             }
             Op::LocalWithProps { n } => {
                 let node = match self.threads[t as usize].stack.last() {
-                    Some(LH::LSpan { node }) => *node,
-                    _ => return err("top handle is not a local span"),
+                    Some(LH::LSpan { node, dead: false }) => *node,
+                    _ => return err("top handle is not a live local span"),
                 };
                 let pv = self.props(op, *n);
                 self.closure_expect(op, *n, node.is_some(), true);
@@ -1092,7 +1092,92 @@ impl Model {
                 });
                 self.rets.insert(op, ExpRet::Records(vec![k]));
             }
-            Op::NewTask { .. } | Op::Poll { .. } | Op::DropTask { .. } | Op::Twin { .. } | Op::TeardownCalls { .. } => {
+            Op::Collect { into } => {
+                if is_inner {
+                    return err("not inside a closure");
+                }
+                let st = &mut self.threads[t as usize].stack;
+                let pos = match st.iter().rposition(|h| matches!(h, LH::Guard { .. } | LH::Coll { .. })) {
+                    Some(p) => p,
+                    None => return err("no scope to end"),
+                };
+                if let (LH::Guard { .. }, Some(_)) = (&st[pos], into) {
+                    return err("into on a guard");
+                }
+                // handles above it are local spans of that scope: dead from now on
+                for h in st.iter_mut().skip(pos + 1) {
+                    if let LH::LSpan { dead, .. } = h {
+                        *dead = true;
+                    }
+                }
+                let h = st.remove(pos);
+                // pop_handle works on the top of the stack: put it there for a moment
+                self.threads[t as usize].stack.push(h);
+                let above: Vec<LH> = {
+                    let st = &mut self.threads[t as usize].stack;
+                    let n = st.len();
+                    st.drain(pos..n - 1).collect()
+                };
+                self.pop_handle(t, op, *into)?;
+                self.threads[t as usize].stack.extend(above);
+            }
+            Op::UnwindScope { slot } => {
+                if is_inner {
+                    return err("not inside a closure");
+                }
+                // = set_local_parent; enter a local span; both released (in order) by the unwinding
+                self.apply_op(op, t, &Op::SetLocalParent { slot: *slot }, &[], idx, true)?;
+                self.apply_op(op, t, &Op::LocalEnter { props: 0 }, &[], idx, true)?;
+                self.pop_handle(t, op, None)?;
+                self.pop_handle(t, op, None)?;
+            }
+            Op::LocalBurst { n } => {
+                let str_seed = self.str_seed;
+                let mut hit = false;
+                let mut any = false;
+                if let Some(sc) = self.top_scope(t) {
+                    if sc.sampled {
+                        let room = QUEUE_CAP.saturating_sub(sc.entries.len());
+                        let k = (*n as usize).min(room);
+                        hit = k < *n as usize;
+                        let parent = sc.open.last().copied();
+                        let name = span_name(str_seed, op);
+                        for _ in 0..k {
+                            sc.entries.push(Entry::Span {
+                                node: op,
+                                parent,
+                                name: name.clone(),
+                                props: vec![],
+                                begin: op,
+                                end: Some(op),
+                            });
+                        }
+                        any = k > 0;
+                    }
+                }
+                if hit {
+                    self.scope_limit_hits += 1;
+                }
+                if any {
+                    self.nodes.insert(op, (span_name(str_seed, op), true, t));
+                    self.poll_nodes.push(op);
+                }
+            }
+            Op::ScopeBurst { slot, n } => {
+                let sp = self.use_span(*slot, op)?;
+                if sp.recording {
+                    let room = STACK_CAP.saturating_sub(self.threads[t as usize].scopes.len());
+                    if (*n as usize) > room {
+                        self.stack_limit_hits += 1;
+                    }
+                }
+            }
+            Op::TeardownCalls { .. } => {
+                if is_inner {
+                    return err("not inside a closure");
+                }
+            }
+            Op::NewTask { .. } | Op::Poll { .. } | Op::DropTask { .. } | Op::Twin { .. } => {
                 return self.apply_async(op, t, o, inner, idx, is_inner);
             }
         }
@@ -1186,7 +1271,7 @@ impl Model {
                             node = Some(tk.node);
                         }
                     }
-                    self.threads[t as usize].stack.push(LH::LSpan { node });
+                    self.threads[t as usize].stack.push(LH::LSpan { node, dead: false });
                     self.poll_nodes.push(tk.node);
                     eop = true;
                 }
